@@ -827,6 +827,7 @@ OPS.update({
     'sum_r3': ('sum_r', 'val', 3, '', '({S}_Sum_sum_2 [a; b; c])'), 'product_r3': ('product_r', 'val', 3, '', '({S}_Product_product_2 [a; b; c])'),
     'sum0': ('sum', 'val', 0, '', '(({S}_Sum_sum []) : {TY})'), 'product0': ('product', 'val', 0, '', '(({S}_Product_product []) : {TY})'),
     'from_i32': ('from_i32', 'optval', 0, 'n', '(({S}_FromPrimitive_from_i32 n) : option {TY})'),
+    'from_inner_F': ('from_inner_F', 'val', 0, 'q', '(({S}_from_inner (ofF q)) : {TY})'),
 })
 for _m in ('bessel_j0', 'bessel_j1', 'bessel_j2'):
     OPS[_m] = ('bessel:' + _m, 'val', 1, '', '(%s a)' % _m)
